@@ -6,6 +6,15 @@ NOTES = ('All checks are ./check <id>; each rebuilds a source-only overlay from 
 NOT_CLAIMED = {}
 
 PROPS = {
+    'C03': {
+        'modules': ['contracts.C03_middleware'],
+        'level': 'proof',
+        'level_text': 'The documented stack discipline is a ghost monitor (safety automaton written from the statement); every opaque call of App.__call__ '
+                      'is an event checked against it, for middleware stacks of arbitrary (symbolic) length with loop invariants, both independent_middleware '
+                      'settings, every placement of completion and of a raised error at every call site including process_response and error handlers.',
+        'level_note': 'Trusted: the monitor and the stubs of user callables / _get_responder / _handle_exception (C04 contract), spec function RR with its '
+                      'defining equation assumed at the loop index. Not decided: termination; see NOT_DECIDED in the evidence.',
+    },
     'C20': {
         'modules': ['contracts.C20_cors'],
         'level': 'proof',
